@@ -3,12 +3,14 @@
 use crate::framework::Check;
 
 pub mod crash;
+pub mod faults;
 pub mod lifecycle;
 
 pub fn all() -> Vec<&'static dyn Check> {
     let mut v: Vec<&'static dyn Check> = Vec::new();
     v.extend(lifecycle::checks());
     v.extend(crash::checks());
+    v.extend(faults::checks());
     v
 }
 
